@@ -150,8 +150,8 @@ def subnormal_ties(rng, e, n_rand):
 
 
 def f32_patterns(rng, tier):
-    n_rand_hot = 4000 if tier == "quick" else 40000
-    n_rand_cold = 1400 if tier == "quick" else 12000
+    n_rand_hot = 4000 if tier == "quick" else 10000
+    n_rand_cold = 1400 if tier == "quick" else 3000
     pats = []
     for e in range(256):
         hot = 100 <= e <= 145 or e in (0, 1, 254, 255)
@@ -220,8 +220,8 @@ def blocks(rng, tier):
             add("enc16", rng.getrandbits(32), 1 << 20, 127)
             add("dec64", rng.getrandbits(32), 1 << 19, 1021)
             add("dec32", rng.getrandbits(32), 1 << 18, 4093)
-            add("rt32", rng.getrandbits(32), 1 << 20, 8191)
-            add("rt64", rng.getrandbits(64), 1 << 20, 1)
+            add("rt32", rng.getrandbits(32), 1 << 18, 8191)
+            add("rt64", rng.getrandbits(64), 1 << 18, 1)
     return ops
 
 
